@@ -130,6 +130,11 @@ def check_create_arcs(chk, rep, repo):
                 del accs["density bound"]
                 rep.fn("ARCS-acc", fn, "density bound (taken after the loops): the largest of the per-rank maxima", True, line=ro.line)
                 rep.fn("ARCS-init", fn, "density bound is recomputed from this call's maxima", True)
+    if "radius" in accs and not [e for e in body if e.kind == "store" and e.target == accs["radius"]] \
+            and _local_radius(w, sc, ro, d_r, accs["radius"]):
+        del accs["radius"]
+        rep.fn("ARCS-acc", fn, "radius (kept in a local, stored once per node): updated to distances[l] when larger", True, line=ro.line)
+        rep.fn("ARCS-init", fn, "radius starts from 0 for every node", True)
     for name, tgt in accs.items():
         st = [e for e in body if e.kind == "store" and e.target == tgt]
         want_guard = ("cmp", "<", tgt, d_r)
@@ -230,6 +235,29 @@ def _local_density_bound(w, sc, ro, d_r, field) -> bool:
         if nxt_r in (("sel", invalid, R, upd), ("sel", valid, upd, R)):
             return True
     return False
+
+
+def _local_radius(w, sc, ro, d_r, field) -> bool:
+    """The radius accumulated in a local that is reset for every node and written to the node once, after its read-out:
+        per node: acc = 0;  per valid rank: if d > acc: acc = d;  node.radius = acc"""
+    from ..ir import mk_cmp
+    per = sc.per
+    fin = [e for e in w.events if e.kind == "store" and e.target == field]
+    if len(fin) != 1 or fin[0].loops != ro.loops or facts(fin[0].guards) != facts(ro.guards) or fin[0].aug \
+            or fin[0].seq < ro.last_seq or fin[0].value[0] != "phi" or fin[0].value[1] != ro.lid:
+        return False
+    n = fin[0].value[2]
+    if n not in ro.carried:
+        return False
+    R = ("phi", ro.lid, n)
+    init_r, nxt_r = ro.carried[n]
+    if init_r not in (("const", 0), ("const", 0.0)):
+        return False  # (reset inside the per-node loop: the value entering the read-out is the literal)
+    upd = ("sel", mk_cmp("<", R, d_r), d_r, R)
+    invalid = mk_cmp("==", K("FLOAT_MAX"), d_r)
+    valid = mk_cmp("!=", K("FLOAT_MAX"), d_r)
+    valid_lt = ("cmp", "<", d_r, K("FLOAT_MAX"))
+    return nxt_r in (("sel", invalid, R, upd), ("sel", valid, upd, R), ("sel", valid_lt, upd, R))
 
 
 def _detached_pdf_range(w, s_mn, s_mx):
